@@ -1350,6 +1350,7 @@ def lat45(ctx):
                 r = call_parts(r)[1][0]
             elems = _neighbour_elements(strip_wrappers(r))
             if elems is None:
+                _one_sided_wrap(ctx, ci, ctx.p.lookup_method(ci.qualname, "get_nearest_neighbors"), strip_wrappers(r))
                 unmodelled.append(show(r, maxdepth=3)[:80])
                 continue
             offs = []
@@ -1476,8 +1477,97 @@ def lat45(ctx):
         raise AnalysisError("LAT-4 matched nothing")
 
 
+def _one_sided_wrap(ctx, ci, fi, r: T):
+    """LAT-4 for a vectorised neighbour function: the neighbours are where(test, shifted, moved) with moved = pos + table of
+    steps.  A table that contains a step -1 takes boundary sites to coordinate -1; when the only range tests compare
+    against the upper end (moved >= extent / moved > extent - 1) and no modulo is taken, those coordinates are returned as
+    they are: not lattice sites."""
+    from ..rules.match import m_where, m_cmp
+    w = m_where(r)
+    if w is None:
+        return
+    has_mod = any(x.op == "binop" and x.args[0] == "%" for x in subterms(r)) or any(
+        x.op == "call" and (array_fn(x) or "") in ("mod", "remainder") for x in subterms(r))
+    neg_step = any(x.op == "const" and type(x.args[0]) is int and x.args[0] < 0 for y in subterms(w[2]) if y.op in ("tuple", "list")
+                   for x in y.args) or any(x.op == "unop" and x.args[0] == "-" and strip_wrappers(x.args[1]).op == "const"
+                                           for y in subterms(w[2]) if y.op in ("tuple", "list") for x in y.args)
+    tests = []
+    stack, seen = [r], set()
+    while stack:
+        x = stack.pop()
+        if x.uid in seen:
+            continue
+        seen.add(x.uid)
+        ww = m_where(x) if x.op == "call" else None
+        if ww is not None:
+            for c_ in subterms(ww[0]):
+                cm = m_cmp(c_) if c_.op == "cmp" else None
+                if cm is not None:
+                    tests.append(cm)
+            stack += [ww[1], ww[2]]
+    upper = [t_ for t_ in tests if t_[0] in (">=", ">")]
+    lower = [t_ for t_ in tests if t_[0] in ("<", "<=") and strip_wrappers(t_[2]).op in ("const", "unop")]
+    if neg_step and upper and not lower and not has_mod:
+        ctx.ob("LAT-4", f"{ci.qualname}.get_nearest_neighbors: steps in both directions are wrapped back into the cell", False,
+               f"the step table contains -1 but the only range test is {show(upper[0][1], maxdepth=2)[:40]} {upper[0][0]} "
+               f"{show(upper[0][2], maxdepth=2)[:30]}: a site in row / column 0 gets the neighbour coordinate -1", fi)
+
+
+def constructible(ctx):
+    """LAT-1 (construction): "every lattice with all side lengths >= 2 can be constructed" (an open triangular lattice
+    needs an even number of rows).  A raise in __post_init__ guarded by the parity of a side is a refusal of admissible
+    lattices unless that side is the row count: the axis whose parity get_nearest_neighbors tests, with the extent that
+    axis is wrapped by."""
+    p = ctx.p
+    for ci in lattice_classes(ctx):
+        pi = p.lookup_method(ci.qualname, "__post_init__")
+        nn = p.lookup_method(ci.qualname, "get_nearest_neighbors")
+        if pi is None:
+            continue
+        rows = None
+        if nn is not None and nn.pos_params() and len(nn.pos_params()) >= 2:
+            pos = nn.pos_params()[1].name
+            axes = {n_.left.slice.value for n_ in ast.walk(nn.node) if isinstance(n_, ast.BinOp) and isinstance(n_.op, ast.Mod)
+                    and isinstance(n_.right, ast.Constant) and n_.right.value == 2 and isinstance(n_.left, ast.Subscript)
+                    and isinstance(n_.left.value, ast.Name) and n_.left.value.id == pos and isinstance(n_.left.slice, ast.Constant)}
+            if len(axes) == 1:
+                k = next(iter(axes))
+                ext = {n_.right.attr for n_ in ast.walk(nn.node) if isinstance(n_, ast.BinOp) and isinstance(n_.op, ast.Mod)
+                       and isinstance(n_.right, ast.Attribute) and isinstance(n_.right.value, ast.Name) and n_.right.value.id == "self"
+                       and any(isinstance(m_, ast.Subscript) and isinstance(m_.value, ast.Name) and m_.value.id == pos and
+                               isinstance(m_.slice, ast.Constant) and m_.slice.value == k for m_ in ast.walk(n_.left))}
+                if len(ext) == 1:
+                    rows = next(iter(ext))
+        parents = {}
+        for n_ in ast.walk(pi.node):
+            for c_ in ast.iter_child_nodes(n_):
+                parents[c_] = n_
+        for r_ in [n_ for n_ in ast.walk(pi.node) if isinstance(n_, ast.Raise)]:
+            tests, cur = [], r_
+            while cur in parents:
+                par = parents[cur]
+                if isinstance(par, ast.If) and cur in par.body:
+                    tests.append(par.test)
+                cur = par
+            par_sides = {n_.left.attr for t_ in tests for n_ in ast.walk(t_) if isinstance(n_, ast.BinOp) and isinstance(n_.op, ast.Mod)
+                         and isinstance(n_.right, ast.Constant) and n_.right.value == 2 and isinstance(n_.left, ast.Attribute)
+                         and isinstance(n_.left.value, ast.Name) and n_.left.value.id == "self"}
+            if not par_sides:
+                continue
+            if rows is None:
+                ctx.rep.note(f"{ci.qualname}.__post_init__: raises on the parity of {sorted(par_sides)}; the row axis could not be "
+                             f"read off get_nearest_neighbors, the refusal is not judged")
+                continue
+            bad = sorted(par_sides - {rows})
+            ctx.ob("LAT-1", f"{ci.qualname}.__post_init__: a parity refusal concerns the number of rows only", not bad,
+                   f"raises when self.{bad[0]} is odd, but the rows (the axis whose parity get_nearest_neighbors tests) are counted "
+                   f"by self.{rows}: admissible lattices with an odd self.{bad[0]} cannot be constructed" if bad else
+                   f"parity of self.{rows}", pi, r_.lineno)
+
+
 def run(ctx):
     _ADJ_GUARDED.clear()
+    constructible(ctx)
     _per_class(ctx, lat1, "LAT-1")
     _per_class(ctx, lat2, "LAT-2")
     _per_class(ctx, lat3, "LAT-3")
